@@ -886,10 +886,17 @@ func (e *SpecEnv) applySpec(sf *SpecFunc, args []Val) Val {
 
 func (ex *Exec) abstractApp(key string, args []*Term) Val {
 	fn := ex.P.Funcs[key]
+	var res *types.Tuple
 	if fn == nil {
-		panic(specErr{"abstract function not found: " + key})
+		// a method of an interface type: "(pkg.Iface).Method"
+		if sig := ex.P.ifaceMethodSig(key); sig != nil {
+			res = sig.Results()
+		} else {
+			panic(specErr{"abstract function not found: " + key})
+		}
+	} else {
+		res = fn.Signature.Results()
 	}
-	res := fn.Signature.Results()
 	var sorts []*Sort
 	for _, a := range args {
 		sorts = append(sorts, a.Sort)
@@ -1005,4 +1012,38 @@ func sexprString(x *SExpr) string {
 		return x.S + sexprString(x.Args[0])
 	}
 	return x.Op
+}
+
+// ifaceMethodSig resolves "(pkgpath.Iface).Method" to the signature of that interface method.
+func (p *Program) ifaceMethodSig(key string) *types.Signature {
+	if !strings.HasPrefix(key, "(") {
+		return nil
+	}
+	j := strings.Index(key, ").")
+	if j < 0 {
+		return nil
+	}
+	qual, meth := key[1:j], key[j+2:]
+	k := strings.LastIndex(qual, ".")
+	if k < 0 {
+		return nil
+	}
+	pk := p.ByPath[qual[:k]]
+	if pk == nil || pk.Types == nil {
+		return nil
+	}
+	o := pk.Types.Scope().Lookup(qual[k+1:])
+	if o == nil {
+		return nil
+	}
+	it, ok := o.Type().Underlying().(*types.Interface)
+	if !ok {
+		return nil
+	}
+	for i := 0; i < it.NumMethods(); i++ {
+		if it.Method(i).Name() == meth {
+			return it.Method(i).Type().(*types.Signature)
+		}
+	}
+	return nil
 }
